@@ -7,6 +7,7 @@ import (
 	"context"
 	"errors"
 	"fmt"
+	"os"
 	"reflect"
 	"time"
 
@@ -95,6 +96,9 @@ func genC08(rc *RunCtx) (*C1, bool) {
 	switch sc.Fault {
 	case FStall, FEOF, FIOErr, FFlushFail, FCancelAt, FCtxDeadline:
 		p := prefix()
+		if sc.Fault == FFlushFail && !t.Has("prefix") && t.Chance(2, 3) {
+			p = n // the whole reply arrives: the client flushes the port when it has its frame, and that flush fails
+		}
 		sc.Reply = full[:p]
 		sc.Chunks = genChunks(t, p)
 		if p == 0 {
@@ -306,6 +310,24 @@ func checkC08(rc *RunCtx, sc *C1, out *C1Outcome) {
 			slack = sc.PortTimeout + 30*time.Millisecond + time.Microsecond
 		}
 		cancelledDuring = out.Elapsed > sc.CancelAt+slack
+		if end := out.Start + out.Elapsed; !cancelledDuring && end >= sc.CancelAt {
+			// The call ended at or shortly after the cancel instant. If nothing the transport delivered at or after that
+			// instant can explain the return, and the read timeout was not due, only the cancel can have ended it.
+			explained := false
+			for _, r := range out.Rec {
+				if r.Kind == "read" && r.At >= sc.CancelAt && (r.N > 0 || (r.Err != nil && !errors.Is(r.Err, os.ErrDeadlineExceeded))) {
+					explained = true
+				}
+			}
+			due := sc.ReadTimeout
+			if sc.Kind == KSerial {
+				due += 30 * time.Millisecond
+			}
+			if !explained && out.Elapsed+time.Millisecond < due {
+				cancelledDuring = true
+				rc.Probe("cancel_ended_the_call_at_once")
+			}
+		}
 	}
 
 	success := out.Err == nil
@@ -313,6 +335,10 @@ func checkC08(rc *RunCtx, sc *C1, out *C1Outcome) {
 		(sc.Fault == FOversize || sc.Fault == FCancelAt || sc.Fault == FCtxDeadline) {
 		// the client consumed exactly one complete valid reply and stopped: the fault was never observable
 		rc.Probe("complete_reply_before_fault")
+		return
+	}
+	if success && sc.Fault == FFlushFail && out.Flushes == 0 && bytes.Equal(out.Consumed, sc.Full) {
+		rc.Probe("complete_reply_without_flush")
 		return
 	}
 	if success {
@@ -336,7 +362,7 @@ func checkC08(rc *RunCtx, sc *C1, out *C1Outcome) {
 			}
 		}
 	case FIOErr, FFlushFail:
-		fired = sawIOErr
+		fired = sawIOErr || (sc.Fault == FFlushFail && out.Flushes > 0)
 		if fired && (!isClientErr || !errors.Is(out.Err, ErrSimIO)) {
 			rc.Violate("misclassified", base+"|err="+errType, "the transport returned an I/O error to the client but Do returned %T %q (ClientError=%v, wraps cause=%v)", out.Err, out.Err, isClientErr, errors.Is(out.Err, ErrSimIO))
 		}
